@@ -170,7 +170,7 @@ def check_cfg(ctx, fx, cfg):
             calls = [s for s in sk if s["k"] == "call"]
             bad = [s for s in sk if s["k"] in ("agg", "store", "ret", "yield", "unknown")] + [s for s in calls if s["t"].get("callee") != "context::StopNotifier::notify"]
             ctx.require(len(calls) >= 1 and not bad, "R02.3", inst + ":notifier-use", "the stop notifier must be consumed only by notify(): %s" % [(s["k"], s.get("t", {}).get("callee")) for s in bad], fn=f["def"], site=f["loc"])
-    run_loops(ctx, fx, "R02.3", {"L3", "L6"})
+    run_loops(ctx, fx, "R02.3", {"L3", "L6", "L11", "L13"})
     # R02.4 leak census
     leaks = [(f["def"], t["callee"], t["l"]) for f, bi, t in graph.all_calls(fx, is_leak)]
     ctx.require(not leaks, "R02.4", "no-leak-primitive@" + cfg, "leak primitive used (a leaked payload / receiver would leave callers hanging): %s" % leaks, site=leaks[0][2] if leaks else "crate", detail={"calls_scanned": sum(1 for _ in graph.all_calls(fx, lambda t: True)), "positive_control": "is_leak(core::mem::forget) holds"})
